@@ -12,14 +12,19 @@ from harness.common import ImplRaised, drv, impl, run_check
 
 PID = "C01"
 THEOREMS = ["pixels_roundtrip", "chunking_irrelevant", "created_offsOK", "matrix_roundtrip_square", "matrix_roundtrip_symm",
-            "arrayLoader_spec", "sortByKey_strict", "createFromFrame_px"]
-LEVELS = {"roundtrip": "top", "metadata": "top", "array_loader": "unit"}
+            "arrayLoader_spec", "sortByKey_strict", "createFromFrame_px", "clipInt_eq_iff", "checkedWrite_exact",
+            "checkedWrite_refuses_iff"]
+LEVELS = {"roundtrip": "top", "metadata": "top", "array_loader": "unit", "value_dtypes": "top"}
 DESCRIBE = {
     "roundtrip": "create_cooler(bins, pixels in some input form) then Cooler.pixels()[:] / matrix(balance=False)[:] (dense, sparse) / "
                  "info vs Lean `createStore` + `specWindow`/`specDense` over the full window (theorems pixels_roundtrip, "
                  "matrix_roundtrip_symm/_square, createFromFrame_px, arrayLoader_spec)",
     "metadata": "user metadata document and assembly name given at creation vs Cooler.info (identity)",
     "array_loader": "cooler.create.ArrayLoader(bins, A, chunksize) chunk stream vs Lean `arrayLoader` (= `triuNonzero`)",
+    "value_dtypes": "an integer value column GIVEN in one integer dtype (int8..uint64, extremes included) and STORED in another: the "
+                    "creation either completes and every value reads back exactly (pixels()[:], raw dataset), or it is refused "
+                    "with an exception, and it is refused only when some value does not fit (Lean `checkedWrite`: theorems "
+                    "checkedWrite_exact, checkedWrite_refuses_iff); never a silently different value",
 }
 RULE = ("bin tables: 1-3 chromosomes, fixed width with short last bin, variable width, single-bin chromosomes (n<=6 quick / <=9 "
         "thorough); matrices: empty, diagonal, dense, random, asymmetric (square mode); input forms: DataFrame, dict, shuffled "
@@ -167,6 +172,59 @@ def _metadata(case):
             os.unlink(path)
 
 
+INT_DTYPES = {"int8": (True, 8), "uint8": (False, 8), "int16": (True, 16), "uint16": (False, 16), "int32": (True, 32),
+              "uint32": (False, 32), "int64": (True, 64), "uint64": (False, 64)}
+
+
+def _value_dtypes(case):
+    given, stored, vals, col = case["given"], case["stored"], case["values"], case["column"]
+    signed, bits = INT_DTYPES[stored]
+    m = drv().ask("C01.checked_write", signed=signed, bits=bits, values=vals)
+    n = len(vals)
+    bins = gen.layout_bins([n])
+    path = os.path.join(gen.tmpdir(), f"c01v-{os.getpid()}.cool")
+    d = {"bin1_id": np.arange(n, dtype=np.int64), "bin2_id": np.arange(n, dtype=np.int64)}
+    if col != "count":
+        d["count"] = np.ones(n, dtype=np.int32)
+    d[col] = np.array(vals, dtype=given)
+    assert [int(x) for x in d[col]] == vals, "generator: a value does not fit the GIVEN dtype"
+    frame = pd.DataFrame(d) if case["form"] == "frame" else d
+    try:
+        raised = None
+        try:
+            if case["form"] == "chunks":
+                k = max(1, n // 2)
+                it = ({c: v[a:a + k] for c, v in d.items()} for a in range(0, n, k))
+                cooler.create_cooler(path, gen.bins_df(bins), it, ordered=True, columns=list(d)[2:], dtypes={col: stored})
+            else:
+                cooler.create_cooler(path, gen.bins_df(bins), frame, columns=list(d)[2:], dtypes={col: stored})
+        except Exception as e:  # noqa: a refusal is one of the two allowed outcomes
+            raised = type(e).__name__
+        base = {"mismatch": True, "given_dtype": given, "stored_dtype": stored, "values": vals, "column": col}
+        if m["stored"] is None:
+            if raised is None:
+                import h5py
+                with h5py.File(path, "r") as f:
+                    raw = [int(x) for x in f["pixels"][col][:]]
+                return dict(base, note="a value that does not fit the stored dtype was accepted", stored=raw,
+                            model_unchecked_write=m["unchecked"])
+            return {"stats": {"refused": 1}}
+        if raised is not None:
+            return dict(base, note="every value fits the stored dtype, yet the creation was refused", raised=raised)
+        import h5py
+        with h5py.File(path, "r") as f:
+            raw = [int(x) for x in f["pixels"][col][:]]
+            dt = str(f["pixels"][col].dtype)
+        tab = impl(lambda: cooler.Cooler(path).pixels()[:])
+        got = [int(x) for x in tab[col]]
+        if raw != vals or got != vals or dt != stored:
+            return dict(base, note="stored values differ from the given ones", raw=raw, pixels_table=got, file_dtype=dt)
+        return {"stats": {"stored_exactly": 1}}
+    finally:
+        if os.path.exists(path):
+            os.unlink(path)
+
+
 def _array_loader(case):
     from cooler.create import ArrayLoader
     A = case["A"]
@@ -185,7 +243,7 @@ def _array_loader(case):
     return None
 
 
-CHECKS = {"roundtrip": _roundtrip, "metadata": _metadata, "array_loader": _array_loader}
+CHECKS = {"value_dtypes": _value_dtypes, "roundtrip": _roundtrip, "metadata": _metadata, "array_loader": _array_loader}
 
 
 def nontrivial(name, case):
@@ -193,10 +251,18 @@ def nontrivial(name, case):
         return len(case["pixels"]) >= 2
     if name == "metadata":
         return bool(case["metadata"])
+    if name == "value_dtypes":
+        return len(set(case["values"])) >= 2
     return any(any(r) for r in case["A"])
 
 
 def distribution(name, case):
+    if name == "value_dtypes":
+        sg, bt = INT_DTYPES[case["stored"]]
+        lo, hi = (-(2 ** (bt - 1)), 2 ** (bt - 1) - 1) if sg else (0, 2 ** bt - 1)
+        yield f"given={case['given']}"
+        yield f"stored={case['stored']}"
+        yield "all_fit" if all(lo <= v <= hi for v in case["values"]) else "some_value_out_of_range"
     if name == "roundtrip":
         yield f"form={case['form']}"
         yield f"dtype={case['dtype']}"
@@ -295,6 +361,26 @@ def cases(tier, rng):
             doc = {"k": None}
         yield "metadata", {"metadata": doc,
                            "assembly": rng.choice(["hg38", "dm6", "T2T-CHM13v2.0", "GRCh38.p13", "my assembly", "ü"])}
+    # integer value columns: every (given dtype, stored dtype) pair, values around both dtypes' bounds
+    yield "value_dtypes", {"given": "uint32", "stored": "int32", "values": [5, 3000000000, 7], "column": "count", "form": "frame"}
+    yield "value_dtypes", {"given": "int32", "stored": "uint32", "values": [1, -4, 9], "column": "count", "form": "dict"}
+    names = list(INT_DTYPES)
+    for g in names:
+        for st in names:
+            for rep in range(3 if thorough else 1):
+                (gs, gb), (ss, sb) = INT_DTYPES[g], INT_DTYPES[st]
+                glo, ghi = (-(2 ** (gb - 1)), 2 ** (gb - 1) - 1) if gs else (0, 2 ** gb - 1)
+                slo, shi = (-(2 ** (sb - 1)), 2 ** (sb - 1) - 1) if ss else (0, 2 ** sb - 1)
+                pool = [glo, ghi, slo, shi, slo - 1, shi + 1, slo + 1, shi - 1, 0, 1, -1, 2, 100, -100, ghi // 2, shi // 2]
+                pool = [v for v in pool if glo <= v <= ghi]
+                inside = [v for v in pool if slo <= v <= shi]
+                k = rng.randint(2, 5)
+                if rng.random() < 0.5 and inside:
+                    vals = [rng.choice(inside) for _ in range(k)]        # everything fits: must be stored exactly
+                else:
+                    vals = [rng.choice(pool) for _ in range(k)]
+                yield "value_dtypes", {"given": g, "stored": st, "values": vals, "column": rng.choice(["count", "count", "score"]),
+                                       "form": rng.choice(["frame", "dict", "chunks"])}
     for _ in range(60 if thorough else 15):
         n = rng.randint(1, 6)
         A = [[rng.choice([0, 0, 1, 2, 5]) for _ in range(n)] for _ in range(n)]
